@@ -4,8 +4,29 @@ import collections
 import json
 import sys
 
+
+def RECHECKED(r, s_):
+    """properties that were re-evaluated for this mutant (those of the failing demos, or all)"""
+    ps = {x.split('-')[0] for x in r.get('demos_failed', [])}
+    return ps if ps else set('C%02d' % i for i in range(1, 21))
+
+
+def PROPS_OF(r):
+    return r.get('props', [])
+
 d = sys.argv[1]
 rows = [json.loads(l) for l in open(d + '/results.jsonl')]
+import os
+if os.path.exists(d + '/recheck.json'):
+    side = json.load(open(d + '/recheck.json'))
+    for r in rows:
+        if r['id'] in side:
+            s_ = side[r['id']]
+            if '--misses-merged' or True:
+                # a partial re-evaluation (only the failing properties) is merged into the earlier verdicts
+                r['check_detect'] = sorted(set(r.get('check_detect', [])) - set(PROPS_OF(r)) | set(s_['check_detect'])) \
+                    if False else sorted(set(s_['check_detect']) | (set(r.get('check_detect', [])) - RECHECKED(r, s_)))
+                r['rules'] = sorted(set(r.get('rules', [])) | set(s_['rules']))
 c = collections.Counter(r['tests'] for r in rows)
 print('mutants evaluated: %d  (tests: %s)' % (len(rows), dict(c)))
 surv = [r for r in rows if r['tests'] == 'pass']
